@@ -274,6 +274,9 @@ def showErr : Err → String
 def showTitleRec (r : Rec) : String :=
   s!"id={hex r.id} seq={hex r.seq} def={showDef (if r.defn = [] then none else some r.defn)}"
 
+def showTxtRec (r : Rec) : String :=
+  s!"id={hex r.id} seq={hex r.seq} q={match r.qual with | some q => hex q | none => "none"} def={showDef (if r.defn = [] then none else some r.defn)}"
+
 def parseText (fm : String) (shift : UInt8) (text : Bytes) : Except Err (List Rec) :=
   if fm = "fastq" then parseFastq shift true text else parseFasta text
 
@@ -411,6 +414,19 @@ def run (line : String) : String :=
       | .ok rs => (toString rs.length ++ " " ++ " | ".intercalate (rs.map showTitleRec)).trimAsciiEnd.toString
                     ++ (if fm = "fasta" then layerCheck fm 33 text rs else "")
     | none => "bad-op"
+  | ["obirt", cl] =>
+    -- observed only (OBI-format title annotations, outside the property): the harness records statistics, no result
+    if cl.isEmpty then "bad-op" else "obs"
+  | ["txt", fm, si, t] =>
+    -- any text through the chunk parser (third pass); the machine = the structural reading (theorems
+    -- `fasta_machine_is_structural`, `fastq_machine_is_structural`)
+    if fm ≠ "fasta" ∧ fm ≠ "fastq" then "bad-op" else
+    match byte? si, unhex t with
+    | some si, some text =>
+      match parseText fm si text with
+      | .error e => showErr e
+      | .ok rs => (toString rs.length ++ " " ++ " | ".intercalate (rs.map showTxtRec)).trimAsciiEnd.toString
+    | _, _ => "bad-op"
   | ["q", so, si, q] =>
     match byte? so, byte? si, byte? q with
     | some so, some si, some q =>
@@ -434,7 +450,7 @@ def run (line : String) : String :=
         | none => "nokey fatal"
     | none => "bad-op"
   | "cli" :: fm :: flags :: n :: rest =>
-    if (fm ≠ "fasta" ∧ fm ≠ "fastq") ∨ flags.toList.any (fun c => !"zsx-".toList.contains c) then "bad-op" else
+    if (fm ≠ "fasta" ∧ fm ≠ "fastq") ∨ flags.toList.any (fun c => !"zsxg-".toList.contains c) then "bad-op" else
     match n.toNat?, aug with
     | some n, [flw] =>
       match parseFloats flw with
